@@ -33,6 +33,14 @@ class Broken(Exception):
     """Something that must be reported as `no-failing-input-found` unless a search finds an input."""
 
 
+class Hang(Broken):
+    """A harness binary did not finish one case within its watchdog limit: the case is the input."""
+
+    def __init__(self, exe, case):
+        Broken.__init__(self, "%s hangs (no answer within the per-case watchdog) on case: %s" % (os.path.basename(exe), case[:2000]))
+        self.exe, self.case = exe, case
+
+
 def log(*a):
     print(*a, file=sys.stderr, flush=True)
 
@@ -375,6 +383,10 @@ def run_lines(exe, lines, env=None, shards=NCPU, timeout=1200, tag="x"):
         p = subprocess.run([exe, fn], env=e, stdout=subprocess.PIPE, stderr=subprocess.PIPE,
                            text=True, timeout=timeout)
         out = p.stdout.splitlines()
+        if p.returncode == 3 and "HANG line=" in p.stderr:
+            k = int(p.stderr.split("HANG line=")[1].split()[0])
+            cases = [l for l in open(fn).read().splitlines() if l]
+            raise Hang(exe, cases[k] if k < len(cases) else "?")
         if p.returncode != 0 or len(out) != cnt:
             raise Broken("%s failed on %s: rc=%s, %d/%d lines\n%s" %
                          (exe, fn, p.returncode, len(out), cnt, p.stderr[-2000:]))
